@@ -1072,10 +1072,13 @@ def signature(source: str) -> Tuple[list[Party], list[Input], list[Output]]:
         raise ValueError("first statement must be: from nada_dsl import *")
 
     # Adjust the import statement and add a statement that resets the static
-    # class attributes being used for aggregation.
+    # class attributes being used for aggregation. The reset must happen before
+    # any other statement of the program is executed (parties and inputs may be
+    # constructed at the module level).
     root.body[0].module = "nada_dsl.audit"
     # root.body.append(ast.Expr(ast.Call(ast.Name('nada_main', ast.Load()), [], [])))
-    root.body.append(
+    root.body.insert(
+        1,
         ast.Expr(
             ast.Call(
                 ast.Attribute(
